@@ -140,29 +140,40 @@ def digitsLen (base : Nat) : List Ch → Nat
   | [] => 0
   | c :: cs => if c.r == 95 || digitVal c.r < base then digitsLen base cs + 1 else 0
 
-/-- `scanNumber` from the current character: characters consumed, token, errors. -/
-def scanNumber (cs : List Ch) : Nat × Tok × List HErr :=
+/-- Base chosen by the prefix of a number and the length of the prefix. -/
+def numBase (cs : List Ch) : Nat × Nat :=
   let p := lowerB (peekB cs)
-  let bn : Nat × Nat :=
-    if cur cs == 48 && p == 98 then (2, 2)
-    else if cur cs == 48 && p == 111 then (8, 2)
-    else if cur cs == 48 && p == 120 then (16, 2)
-    else (10, 0)
+  if cur cs == 48 && p == 98 then (2, 2)
+  else if cur cs == 48 && p == 111 then (8, 2)
+  else if cur cs == 48 && p == 120 then (16, 2)
+  else (10, 0)
+
+/-- Whole number and fractional part: (has a fraction, characters consumed so far). -/
+def numMant (cs : List Ch) : Bool × Nat :=
+  let bn := numBase cs
   let base := bn.1
   let n1 := bn.2 + digitsLen base (cs.drop bn.2)
-  let fr : Bool × Nat :=
-    if cur (cs.drop n1) == 46 && (base == 10 || base == 16) then
-      (true, n1 + 1 + digitsLen base (cs.drop (n1 + 1)))
-    else (false, n1)
-  let n2 := fr.2
+  if cur (cs.drop n1) == 46 && (base == 10 || base == 16) then
+    (true, n1 + 1 + digitsLen base (cs.drop (n1 + 1)))
+  else (false, n1)
+
+/-- Exponent after `n2` characters: `none` when there is none. -/
+def numExp (cs : List Ch) (n2 : Nat) : Option (Nat × List HErr) :=
   let e := cur (cs.drop n2)
   if e == 101 || e == 69 || e == 112 || e == 80 then
     let n3 := n2 + 1
     let s := cur (cs.drop n3)
     let n4 := if s == 45 || s == 43 then n3 + 1 else n3
     let d := digitsLen 10 (cs.drop n4)
-    (n4 + d, Tok.Float, if d == 0 then [{ k := n4, j := n4, msg := .exponentNoDigits }] else [])
-  else (n2, if fr.1 then Tok.Float else Tok.Int, [])
+    some (n4 + d, if d == 0 then [{ k := n4, j := n4, msg := .exponentNoDigits }] else [])
+  else none
+
+/-- `scanNumber` from the current character: characters consumed, token, errors. -/
+def scanNumber (cs : List Ch) : Nat × Tok × List HErr :=
+  let m := numMant cs
+  match numExp cs m.2 with
+  | some (n, errs) => (n, Tok.Float, errs)
+  | none => (m.2, if m.1 then Tok.Float else Tok.Int, [])
 
 /-- Mode of the quoted-literal automaton (`scanString`/`scanRune` with `scanEscape` inlined). -/
 inductive QMode where
@@ -312,10 +323,9 @@ def op (mt : Nat × Tok) (ins : Bool) : Step := { m := mt.1, tok := some (mt.2, 
 /-- Encoding of `string(ch)` for the literal of an Illegal token. -/
 def illegalLit (c : Ch) : Bs := if c.r == runeError then [0xEF, 0xBF, 0xBD] else c.bytes
 
-/-- `Scan()` with current character `c` (white space already handled by the caller when it is to be
-skipped). `ins` is the current `insertSemi`. -/
-def scan1 (cls : Nat → Nat) (ins : Bool) (c : Ch) (cs : List Ch) : Step :=
-  let r := c.r
+/-- `Scan()` with current character `c` of rune `r` (`ins` is the current `insertSemi`; white space is a
+step of its own that returns no token). -/
+def scanR (cls : Nat → Nat) (ins : Bool) (r : Nat) (c : Ch) (cs : List Ch) : Step :=
   if r == 32 || r == 9 || r == 13 || (r == 10 && !ins) then { m := 0, tok := none, ins := ins }
   else if isLetter cls r then
     let n := identLen cls cs
@@ -381,6 +391,8 @@ def scan1 (cls : Nat → Nat) (ins : Bool) (c : Ch) (cs : List Ch) : Step :=
   else
     { m := 0, tok := some (.Illegal, illegalLit c), ins := ins,
       errs := if r == bomR then [] else [{ k := 1, j := 0, msg := .illegalChar r }] }
+
+def scan1 (cls : Nat → Nat) (ins : Bool) (c : Ch) (cs : List Ch) : Step := scanR cls ins c.r c cs
 
 /-! ### Errors in emission order -/
 
